@@ -74,7 +74,7 @@ func cacheFilterFamily() []*term {
 
 type cacheKeyDef struct{ ns, name string }
 
-var cacheKeys = []cacheKeyDef{{"a", "p"}, {"a", "q"}, {"b", "p"}, {"b", "q"}}
+var cacheKeys = []cacheKeyDef{{"a", "p"}, {"a", "q"}, {"b", "p"}, {"b", "q"}, {"", "p"}} // the last one: a cluster-scoped object (no namespace)
 
 func genVersion() *rapid.Generator[string] {
 	return rapid.Custom(func(t *rapid.T) string {
